@@ -15,11 +15,28 @@ static int cmp_mod;               /* compare keys modulo cmp_mod when > 0 */
 static int cmpmode, cmpcalls;
 
 static int ptrrep;                /* 1: keys/values are integers cast to pointers (0 == NULL) */
+/* header `cmpnest 1`: the comparison function of the map under test looks two things up in ANOTHER map before it
+ * answers (keys ordered by a rank kept in a second map); nothing of the outer operation may be disturbed by that */
+static int cmpnest;
+static cstl_map_t rankmap;
+static int rankkeys[3] = { 10, 20, 30 };
+static char rank_cookie;
+static int rcmp(const void * a, const void * b, void * p)
+{
+    h_check_priv2(p, &rank_cookie);
+    return (*(const int *)a > *(const int *)b) - (*(const int *)a < *(const int *)b);
+}
 static int kcmp(const void * a, const void * b, void * p)
 {
     int x = ptrrep ? (int)(uintptr_t)a : *(const int *)a;
     int y = ptrrep ? (int)(uintptr_t)b : *(const int *)b;
     h_check_priv(p);
+    if (cmpnest) {
+        cstl_map_iterator_t ri;
+        cstl_map_find(&rankmap, &rankkeys[x & 1], &ri);
+        cstl_map_find(&rankmap, &rankkeys[2], &ri);
+        if (ri.key != &rankkeys[2]) { printf("badnest\n"); fflush(stdout); _exit(3); }
+    }
     if (cmp_mod > 0) { x %= cmp_mod; y %= cmp_mod; }
     cmpcalls++;
     if (cmpmode == 1) return x - y;
@@ -98,7 +115,7 @@ static void run_case(const struct h_case * c)
 
     for (i = 0; i < MAXK; i++) keytab[i] = i;
     ha_reset();
-    cmp_mod = 0; cmpmode = 0; cmpcalls = 0; ptrrep = 0; nestclear = 0;
+    cmp_mod = 0; cmpmode = 0; cmpcalls = 0; ptrrep = 0; nestclear = 0; cmpnest = 0;
     for (i = 0; i < c->nlines; i++) {
         const struct h_line * l = &c->lines[i];
         int a = (int)h_int(l, 1), b = (int)h_int(l, 2), rc;
@@ -108,7 +125,16 @@ static void run_case(const struct h_case * c)
         if (h_weq(l, 0, "cmpmode")) { cmpmode = a; continue; }
         if (h_weq(l, 0, "ptrrep")) { ptrrep = a; continue; }
         if (h_weq(l, 0, "nestclear")) { nestclear = a; continue; }
-        if (!started) { cstl_map_init(&map, kcmp, H_COOKIE); cstl_map_init(&auxmap, kcmp, H_COOKIE); started = 1; }
+        if (h_weq(l, 0, "cmpnest")) { cmpnest = a; continue; }
+        if (!started) {
+            cstl_map_init(&map, kcmp, H_COOKIE); cstl_map_init(&auxmap, kcmp, H_COOKIE);
+            if (cmpnest) {
+                /* set up outside the accounted allocations (ha_active == 0 here) */
+                cstl_map_init(&rankmap, rcmp, &rank_cookie);
+                for (k = 0; k < 3; k++) cstl_map_insert(&rankmap, &rankkeys[k], NULL, NULL);
+            }
+            started = 1;
+        }
         if (a < 0 || a >= MAXK || b < 0 || b >= MAXV) { printf("precond\n"); return; }
         ha_active = 1;
         cmpcalls = 0;
